@@ -36,6 +36,8 @@ def _cells(dict_node, prog, module):
     if not isinstance(dict_node, ast.Dict):
         raise AnalysisError("transition table is not a dict display")
     for rk, rv in zip(dict_node.keys, dict_node.values):
+        if rk is None:
+            raise AnalysisError("transition table is built with ** at the top level")
         row = prog.fold(rk, module)
         if row in out:
             dups.append((row, None, rk.lineno))
@@ -56,8 +58,23 @@ def _cells(dict_node, prog, module):
             out[row]["__line__"] = rk.lineno
             continue
         for ck, cv in zip(rv.keys, rv.values):
+            if ck is None:
+                # **FRAGMENT / **helper(...): a shared, constant group of cells of this row
+                try:
+                    frag = prog.fold(cv, module)
+                except NotFoldable as e:
+                    raise AnalysisError("row %r includes **%s, which is not a foldable "
+                                        "constant (%s)" % (row, unparse(cv), e))
+                if not isinstance(frag, dict) or not all(
+                        isinstance(k, str) and isinstance(v, str) for k, v in frag.items()):
+                    raise AnalysisError("row %r includes **%s, which does not fold to a mapping "
+                                        "of event names to statuses" % (row, unparse(cv)))
+                for ev, tgt in frag.items():
+                    # a later literal cell / fragment overrides an earlier one, as in Python
+                    out[row][ev] = (cv, cv, tgt)
+                continue
             ev = prog.fold(ck, module)
-            if ev in out[row]:
+            if ev in out[row] and out[row][ev][0] is not out[row][ev][1]:
                 dups.append((row, ev, ck.lineno))
             out[row][ev] = (ck, cv, prog.fold(cv, module))
         out[row]["__line__"] = rk.lineno
